@@ -36,7 +36,8 @@ add("C02", "Hypothesis-generated parameters/abscissae vs independent 40-digit mp
     "contact point and its neighbouring floats, unsorted arrays): force equals the independently written published "
     "formula to a stated round-off bound, equals the baseline bit-exactly off contact, the sphere series stays within "
     "1e-4 of max force of the exact Sneddon solution for depths up to R, and each docstring states the constants "
-    "the code uses. 16 000 cases quick, 1.6e6 thorough.",
+    "the code uses; at the inclusive bound alpha = 90 of the cone (singular formula) only finiteness and the baseline "
+    "off contact are checked. 16 000 cases quick, 8e5 thorough.",
     "Trusts mpmath and the reference formulas in vlib/refmodels.py (written from the papers, Bilodeau constant 0.8887); "
     "sampling cannot prove absence of a deviation in an unexplored corner of the box.")
 
@@ -52,8 +53,8 @@ add("C04", "Hypothesis-generated curves and fit configurations; outputs recomput
 add("C05", "Hypothesis-generated intervals (on/between samples, inverted, one-sided, zero width) with set-equality oracle; "
            "harness-side lmfit.minimize recorder for multi-pass anchoring",
     "The reported fit-range mask is compared for exact set equality with segment & closed interval; for 'relative cp' "
-    "the anchor is the contact point returned by the third optimisation (observed from outside) and convergence of "
-    "the anchor is asserted on exact model curves; plateau search: sample count, monotonic grid, optimal depth "
+    "the anchor is the contact point returned by the third optimisation (observed from outside; whether the anchor "
+    "has converged is counted, not asserted); plateau search (also with more scan depths than data points): sample count, monotonic grid, optimal depth "
     "inside the scan, final mask from the optimal depth; xmin/xmax equal the extreme used abscissae.",
     "Observes lmfit.minimize calls by wrapping the function from the harness; exploration only.")
 
@@ -62,22 +63,27 @@ add("C11", "metamorphic relation fit(k) vs fit(1) on Hypothesis-generated synthe
     "For the three power-law models, k in (0.05, 2], both segments, absolute / contact-point-relative / plateau-search "
     "ranges and non-zero initial contact points: contact point, baseline, fit column, xmin/xmax agree with the k=1 "
     "fit and E(k) k^p == E(1); the initial contact point handed to the optimiser is the caller's value times k in "
-    "every pass; the caller's parameter object is unchanged.",
+    "every pass; the caller's parameter object is unchanged. Also: contact point bounded / fixed / tied by an "
+    "expression, k given in a second call on its own, the library's own initial guess (same position for every k), "
+    "one IndentationFitter object re-used with another k.",
     "leastsq only; agreement tolerance 2e-6 of the natural scale (noise-proportional on noisy data); ill-conditioned "
-    "noisy sub-problems are excluded by a stated rule and counted in the evidence.")
+    "noisy sub-problems are excluded by a stated rule and counted in the evidence; one known finding (F36: a k != 1 "
+    "fit that stops far above the optimum on exact data, told apart by its chi-square) is printed as KNOWN-FINDING.")
 
 add("C13", "metamorphic relations (orientation, translation, baseline additivity, modulus linearity, continuity, "
            "monotonicity, residual definition) on Hypothesis-generated inputs for every registered model incl. "
            "harness-defined user models",
-    "All shipped models plus two harness-defined user models (one deliberately order sensitive, one with an "
-    "expression parameter and ancillaries) are evaluated through the registry's model/residual wrappers on generated "
-    "monotonic abscissae of either orientation.",
+    "All shipped models plus three harness-defined user models (one deliberately order sensitive, one with an "
+    "expression parameter and ancillaries, one that depends on the first sample of the record and has a hidden "
+    "underscore parameter) are evaluated through the registry's model/residual wrappers on generated "
+    "monotonic abscissae of either orientation (2-60 points or long records around 2^14 samples, also entirely out "
+    "of contact), and compared with the module's own model_func on the approach-ordered abscissa.",
     "The third-party model 'sneddon_spher' (not in /repo) is excluded; tolerances stated in the evidence.")
 
 add("C01", "ground-truth oracle on Hypothesis-generated synthetic curves (independent reference formulas) fitted from "
            "inside a stated convergence basin",
     "All five shipped models, parameters strictly inside bounds with E over 4 decades, 60-1500 points per segment, "
-    "linear/jittered/quadratic sampling, both segments, weighting 0..5e-6, leastsq and nelder, noise 0..3e-2: success "
+    "linear/jittered/dithered (non-monotonic)/quadratic sampling, coarse 5-14 point segments, both segments, weighting 0..5e-6, leastsq and nelder, noise 0..3e-2: success "
     "is reported, contact point / baseline / modulus are recovered to optimizer precision (1e-7 leastsq, 2e-3 nelder, "
     "of the natural scales) and the fit column coincides with the clean data; with noise the errors stay below "
     "C sigma / sqrt(n) with calibrated C. 3 200 cases quick, 200 000 thorough.",
@@ -99,7 +105,7 @@ add("C18", "single-fault mutants of generated model modules (enumerated + Hypoth
 add("C12", "pairs of configurations differing in exactly one respect (Hypothesis-generated base + one modification, kinds "
            "scheduled round-robin); equal-hash pairs are decided by actually fitting both; child interpreters with "
            "different PYTHONHASHSEED",
-    "For each of 17 kinds of single change (every fit-setting key, parameter value/min/max/vary/expr, one data sample "
+    "For each of 19 kinds of single change (every fit-setting key, parameter value/min/max/vary/expr, one data sample "
     "by 1 ulp..1 %, preprocessing list/options, 9 representation variants, the two documented don't-cares) the hash "
     "must differ for relevant changes - when it does not, both configurations are fitted and any difference in the "
     "results is a violation - and must be equal for representation changes and don't-cares; equal objects hash "
@@ -133,14 +139,14 @@ add("C03", "generated call histories (lists of operation records shrunk as one v
 add("C06", "generated histories of valid and invalid preprocessing requests, fits and requests issued through fit_model; "
            "bit-identity of all columns against a fresh curve after every request",
     "Curves in memory, file-backed (IndentationGroup) and recorded; requests from all valid step orders x option "
-    "values and four kinds of invalid request. After every valid request every column equals, bit for bit, the same "
+    "values and five kinds of invalid request; one options object held and edited by the caller; another curve's public attributes edited in place. After every valid request every column equals, bit for bit, the same "
     "request on a fresh curve and re-applying changes nothing; an invalid request is rejected, rejected again when "
     "repeated, never reported by the curve as applied; raw data are unchanged at the end.",
     "Column state directly after a rejected request is not specified by the property and not asserted.")
 
 add("C10", "twin oracle per mutable argument: same object edited in place and passed again vs fresh equal-valued objects; "
            "deep snapshots of every argument before/after each call",
-    "Ten scenarios (initial parameters passed / returned, step list, option dict, range list, method keyword dict, "
+    "Fourteen scenarios (initial parameters passed / returned / handed out twice / kept across a skipped fit pass, curve attributes, returned details, abscissa of the model and residual functions, step list, option dict, range list, method keyword dict, "
     "preprocessing kwargs of fit_model, force array of the six contact-point estimators, rater feature-name list and "
     "training arrays) x generated curves and fit settings incl. correction factor != 1, multi-pass ranges and "
     "plateau search: arguments are never modified, stored state does not follow later in-place edits, and passing an "
@@ -173,7 +179,7 @@ add("C16", "generated save/load histories against an ordered-dict model with ful
     "several files and enumerations) and loads over synthetic and recorded curves with generated fit settings: loaded "
     "columns bit-identical, settings/parameters/user fields equal by value, features equal, hdf5_rated correct, "
     "untouched entries dump-identical, a re-save changes only user/version attributes, a different fit is refused "
-    "and leaves the dump unchanged. Fault rule: every write call (create_dataset, create_group, attribute and dataset "
+    "and leaves the dump unchanged; curves handed out by an earlier load do not change when a second container with the same curve is loaded. Fault rule: every write call (create_dataset, create_group, attribute and dataset "
     "writes; up to 40 per save) of selected saves is failed in turn on a fresh copy of the container and all "
     "previously stored ratings must still load.",
     "A process kill leaving a torn HDF5 file is not simulated (the property speaks of failures at write calls); "
@@ -210,9 +216,13 @@ add("C08", "metamorphic scale/shift relations, validity and accuracy oracles on 
     "array, input untouched, same index with ret_details, exactly unchanged under x2^j, within one sample under "
     "arbitrary positive factors (incl. 1e9) and constant shifts, within a stated fraction phi of the approach length "
     "of the true contact on clean model curves (phi calibrated per estimator), and no exception but the documented "
-    "centre fallback for constant, decreasing, no-baseline and 0-12-sample arrays in N / nN / pN units.",
+    "centre fallback for constant, decreasing, no-baseline (convex and concave) and 0-12-sample arrays in N / nN / pN "
+    "units, as floats or integer counts; non-model shapes (tanh, 1-exp, sqrt, linear, power rise after a baseline) "
+    "must give a valid index as well.",
     "phi values are calibrated constants (1.5x the worst clean-curve error measured on 45 000 curves), stated in the "
-    "evidence; an index at or beyond the force maximum is counted, not asserted.")
+    "evidence, with a tighter early-side bound for the four estimators biased towards the indentation; an index at or "
+    "beyond the force maximum is counted, not asserted; one known finding (F33: the three fitting estimators are not "
+    "stable under arbitrary factors / shifts) is printed as KNOWN-FINDING, power-of-two factors stay asserted.")
 
 add("C09", "generated histories reaching curve states and rating them with changing cache keys; differential against an "
            "uncached standalone rater, the statement's case table, a fresh equal curve and child interpreters with "
@@ -221,7 +231,7 @@ add("C09", "generated histories reaching curve states and rating them with chang
     "names + 'none' x training set in {shipped, generated directory, in-memory tuple} x feature subsets x LDA flag, "
     "interleaved with refits, edits and new preprocessing: rate_quality never raises, returns -1 / 0 per the case "
     "table, stays in [0, 10] for the averaging tree regressors, equals get_rater(...).rate(datasets=curve) after "
-    "every change of hash, regressor, training set, names or LDA flag, is repeatable, equal on a fresh equal curve "
+    "every change of hash, regressor, training set, names or LDA flag (also through rate(samples=...)), does not depend on the order of the names or on an earlier get_rater call with own regressor keywords, is repeatable, equal on a fresh equal curve "
     "and in child processes with PYTHONHASHSEED 1 / 98765, and does not change the curve.",
     "Each rating trains a regressor (0.02-0.6 s), so quick explores 160 histories; equality with the standalone "
     "rater is asserted for fitted states only (all not-fitted states share cache key 'none').")
